@@ -87,3 +87,44 @@ def gate_list_obs(circ):
         name = {"P_dag": "PD"}.get(g[0], g[0])
         out.append({"g": name, "a": int(g[1]) + 1, "b": int(g[2]) + 1 if len(g) > 2 else 0})
     return out
+
+
+_PH = {(1, 3): 1, (3, 2): 1, (2, 1): 1, (3, 1): 3, (2, 3): 3, (1, 2): 3}
+
+
+def pauli_mul(g, h):
+    """product of two COMMUTING signed Paulis {"s","p"} (harness helper; results are re-validated by TLC)."""
+    k = 0
+    p = []
+    for a, b in zip(g["p"], h["p"]):
+        if a and b and a != b:
+            k += _PH[(a, b)]
+        x = (1 if a in (1, 3) else 0) ^ (1 if b in (1, 3) else 0)
+        z = (1 if a in (2, 3) else 0) ^ (1 if b in (2, 3) else 0)
+        p.append(x + 2 * z)
+    k %= 4
+    assert k in (0, 2)
+    return {"s": (g["s"] + h["s"] + k // 2) % 2, "p": p}
+
+
+def graph_generators(g, n):
+    rows = []
+    for v in range(n):
+        p = [0] * n
+        p[v] = 1
+        for u in g.neighbors(v):
+            p[u] = 2
+        rows.append({"s": 0, "p": p})
+    return rows
+
+
+def random_regauge(rng, rows, steps=None):
+    """another generating set of the same group: random invertible row operations."""
+    rows = [dict(r) for r in rows]
+    n = len(rows)
+    for _ in range(steps if steps is not None else 2 * n):
+        i, j = rng.randrange(n), rng.randrange(n)
+        if i != j:
+            rows[i] = pauli_mul(rows[i], rows[j])
+    rng.shuffle(rows)
+    return rows
